@@ -31,6 +31,8 @@ CHECKS = {
          TECH + "; byte-stream equality and end-of-stream placement oracles"),
  "C09": ("fault_enumeration", "For base runs of Redis and TCP services (0-4 connections, requests or streams in flight, 0-3 injected listen failures before the bind succeeds, temporary accept errors, responsive / silent / refusing backends), Stop or StopListen is injected before every scheduler step from the return of Start() on (same schedule prefix), plus random runs incl. drain-then-stop and connection-limit bursts; oracle: Stop/StopListen return within 10 simulated minutes; once Stop has returned and the system is quiescent the listening port is closed, every connection handed to the service (downstream and upstream) is closed and no goroutine spawned under the service is alive; after StopListen returned a new arrival is not served while established connections keep being served; never more than the limit of connections are served concurrently and exactly min(limit, arrivals) are served when none closes.", "4.C09",
          TECH + "; systematic injection of stop/drain before every step of base schedules"),
+ "C06": ("exploration", "Two scenario classes. Policy level (real internal/lb through a verif re-export, instrumented): 2-8 tasks call PickHost concurrently on 1-9 hosts under every scheduler strategy with the random source fed from the scenario; round-robin must return every host exactly k times over n*k picks, random and least-connection only list members, least-connection never the strictly busier of its two samples. End to end (real TCP service): 1-6 backends in main/backup tiers, histories of OnSvcHostAdd / OnSvcHostRemove / OnSvcAllHostReplace called the way the controller does (fresh Host objects, one change at a time) interleaved with connection arrivals; every relayed connection must reach a backend that was a usable member (current endpoint set, preferred tier) at some step of its selection window [accept .. dial] under the reference host-set model, a connection with no usable host is closed, and connections established to a host are closed within 10 simulated minutes after its removal completed.", "4.C06",
+         TECH + "; reference host-set model over selection windows"),
 }
 NA = {
 }
